@@ -5,7 +5,7 @@
     instantiated with the regenerated objects. *)
 From Coq Require Import List NArith Bool String.
 From Verif Require Import Aries.Str Aries.Radix Aries.SegTrie Aries.Router Aries.Tiers Aries.Entry
-  Aries.RouterProofs Aries.TiersProofs Aries.EntryProofs Gen.AriesSkel Gen.AriesEntry.
+  Aries.CtxSeq Aries.RouterProofs Aries.TiersProofs Aries.EntryProofs Aries.CtxSeqProofs Gen.AriesSkel Gen.AriesEntry.
 Import ListNotations.
 
 (** [Serve] as it is in the source today passes the gating check. *)
@@ -121,3 +121,17 @@ Proof. destruct gen_router_nil_ok. repeat split; auto. Qed.
 
 Lemma gen_scope_register_then_serve : gen_serving_writes = [] /\ gen_late_registrations = [].
 Proof. split; [apply gen_serving_readonly | apply gen_no_late_registration]. Qed.
+
+(** * Round 3: a router that misses leaves the context as it found it *)
+
+(** [Router.Serve] as it is in the source today is the wrapper that puts
+    [c.routePos] back when the result is Miss. *)
+Lemma gen_router_wrap_ok : gen_router_wrap = RWRestoreOnMiss.
+Proof. vm_compute. reflexivity. Qed.
+
+(** Routers tried in a row on one context (the tiers of a ServiceSet): each
+    routes the request's own path. *)
+Lemma gen_serve_seq_is_ref le fuel rs is c :
+  let '(hs, f, _) := serve_seq gen_dispatch_cond gen_method_reject le gen_router_wrap fuel rs is c in
+  (hs, f) = seq_ref gen_dispatch_cond gen_method_reject le fuel rs is c.
+Proof. rewrite gen_router_wrap_ok. apply serve_seq_is_ref. Qed.
